@@ -36,9 +36,12 @@ feature by exactly that offset and changes no other reported quantity"):
 
 **batch**: `batch_is_concat`, `batch_rows_in_frame_order`, `batch_any_order_preserving_map`.
 
-NOT proved (see `lean/obligations/C09.json`, "partial"): the compositions `locateModel_shift`,
-`locateNoPre_transpose`; `maxima/refine_transpose` beyond 2-D; the row ORDER of the maxima under
-shift (membership and multiplicity are proved); the schedule clause of `batch`.
+The COMPOSITIONS of these stage theorems into statements about `Locate.locateModel` —
+`locateModel_shift` (`locatePre_shift`, `locateNoPre_shift`), `locateNoPre_transpose`, and the row
+ORDER of the maxima under a shift (`maxima_shift_order`) — are in `Props/C09Comp.lean`.
+
+NOT proved (see `lean/obligations/C09.json`, "partial"): the `ecc` clause under transposition (false
+of the code); `maxima/refine_transpose` beyond 2-D; the schedule clause of `batch`.
 -/
 namespace TrackpyV.C09
 open TrackpyV List
@@ -732,30 +735,13 @@ example : batchModel (fun n : Nat => List.range n) [⟨some 5, 1⟩, ⟨some 3, 
 
 end batch
 
-/-! ## not proved
+/-! ## the compositions
 
--- FULL (not proved): locateModel_shift —
---   for `big₁ = Locate.embed canvas off₁ content`, `big₂ = Locate.embed canvas off₂ content` with
---   padding ≥ halo + max(margin, radius + max_iterations) + 1 on every side (halo = max of the kernel
---   and box half-widths when `P.preprocess`, else 0):
---     Locate.locateModel P canvas big₂.data = (Locate.locateModel P canvas big₁.data).map
---       (fun m => { m with centre := centre + (off₂ − off₁), pos := pos + (off₂ − off₁) })
---   Missing glue between the three image representations of the stage models: the flat index of an
---   embedded `Array` (`embed` ⇒ `IsEmbedQ`, and the bandpassed canvases as embeddings of one
---   halo-extended content), `Refine.ofArray` of an embedded array as `shiftImg`, and
---   the preservation of the `np.where` order.  The stage theorems above (`bandpass_shift`,
---   `bandpass_blank_far`, `thr_shift`, `greyDilation_shift`, `refine_shift`) are the steps of that
---   proof; the composition is exercised end to end on `tp.locate` by the harness (stream `shift`) and
---   `locateModel` itself is compared with the stage calls of `locate` (stream `stage`).
-
--- FULL (not proved): locateNoPre_transpose —
---   for a 2-D integer image and `P.preprocess = false`:
---     Locate.locateModel (P with per-axis lists reversed) [W, H] (transpose raw) is, up to the order
---     of the rows, (Locate.locateModel P [H, W] raw) with `centre`, `pos` (and per-axis `rg2`)
---     components exchanged, `ecc = (a, b, cp) ↦ (2·cp − a, b, cp)` (`refine_transpose_ecc`; the
---     property wants `(−a, b, cp)`, FALSE of the code), all other fields equal.
---   From `maxima_transpose` and `refine_transpose`; missing: `Refine.ofArray` of a transposed array
---   as `transImg`, and the statement "up to row order" for the two `np.where` orders.
+`locateModel_shift` (bandpass → convert_to_int → grey_dilation → refine_com under a shift; 2-D, and
+`locateNoPre_shift` in any dimension), `locateNoPre_transpose` (2-D, every reported quantity except
+`ecc`) and `maxima_shift_order` (the `np.where` order) are proved in `Props/C09Comp.lean` from the
+stage theorems above and the glue lemmas of `Proofs/LocateGlue.lean` / `Proofs/LocatePre.lean`
+between the three image representations (flat `Array Rat` / flat `Array Nat` / index function).
 -/
 
 end TrackpyV.C09
